@@ -405,8 +405,33 @@ func (t *LoggingTransport) Connect(ctx context.Context) (Connection, error) {
 	if err != nil {
 		return nil, err
 	}
-	return &loggingConn{delegate: delegate, w: t.Writer}, nil
+	lc := &loggingConn{delegate: delegate, w: t.Writer}
+	// Connections learn about their session through an optional method, which
+	// the wrapper must not hide: the streamable client connection, for
+	// instance, opens its standalone stream and sets the protocol version
+	// header only once it has been told the outcome of the handshake.
+	switch d := delegate.(type) {
+	case clientConnection:
+		return &loggingClientConn{loggingConn: lc, client: d}, nil
+	case serverConnection:
+		return &loggingServerConn{loggingConn: lc, server: d}, nil
+	}
+	return lc, nil
 }
+
+type loggingClientConn struct {
+	*loggingConn
+	client clientConnection
+}
+
+func (c *loggingClientConn) sessionUpdated(state clientSessionState) { c.client.sessionUpdated(state) }
+
+type loggingServerConn struct {
+	*loggingConn
+	server serverConnection
+}
+
+func (c *loggingServerConn) sessionUpdated(state ServerSessionState) { c.server.sessionUpdated(state) }
 
 // SupportsProtocolVersion implements [ProtocolVersionSupporter] by asking the
 // wrapped transport, so that logging a transport does not make it appear to
